@@ -151,8 +151,10 @@ def expected_ops(prog):
     for st in prog['steps']:
         op = st['op']
         if op == 'ew':
-            name = {'pow2': 'pow', 'pow3': 'pow', 'powm2': 'pow', 'pow1.5': 'pow'}.get(st['fn'], st['fn'])
+            name = {'pow2': 'pow', 'pow3': 'pow', 'powm2': 'pow', 'pow1.5': 'pow', 'polygammaA': 'polygamma'}.get(st['fn'], st['fn'])
             args = [{'n': var2node[st['a']]}] + ([{'c': 0}] if name == 'pow' else [])
+            if name == 'polygamma':
+                args = [{'c': 0}] + args              # polygamma(m, x): the order is a constant argument
             var2node[nv] = emit(name, args)
         elif op == 'bin':
             var2node[nv] = emit({'add': 'add', 'sub': 'sub', 'mul': 'mul', 'div': 'truediv', 'pow': 'pow'}[st['fn']], [{'n': var2node[st['a']]}, {'n': var2node[st['b']]}])
@@ -282,7 +284,52 @@ def two_fails(case):
     return None
 
 
+def cmp_case(rng):
+    n = rng.randint(1, 4)
+    x = np.round(rand_coeffs(rng, (n,), -1, 1) * 2) / 2
+    kind = rng.choice(['scalar', 'ndarray', 'function', 'utpm', 'reflected'])
+    other = x.copy()
+    for i in range(n):
+        if rng.random() < 0.5:
+            other[i] += rng.choice([-0.5, 0.5])          # the other entries are exact ties
+    return {'op': 'tracer-cmp', 'cmp': rng.choice(['lt', 'le', 'gt', 'ge']), 'kind': kind, 'x': x, 'other': other,
+            'c': float(x[rng.randrange(n)])}
+
+
+def cmp_fails(case):
+    """comparisons with a traced operand give what the same comparison gives on the unwrapped values (ties included), so a
+    data-dependent branch takes the same path while recording"""
+    import operator
+    from algopy import CGraph, Function
+    f = getattr(operator, case['cmp'])
+    x, other, kind = np.array(case['x']), np.array(case['other']), case['kind']
+    cg = CGraph()
+    fx = Function(x.copy())
+    try:
+        if kind == 'scalar':
+            got, want = f(fx, case['c']), f(x, case['c'])
+        elif kind == 'ndarray':
+            got, want = f(fx, other.copy()), f(x, other)
+        elif kind == 'function':
+            got, want = f(fx, Function(other.copy())), f(x, other)
+        elif kind == 'reflected':
+            got, want = f(case['c'], fx), f(case['c'], x)
+        else:
+            ux, uo = UTPM(x.reshape((1, 1) + x.shape).copy()), UTPM(other.reshape((1, 1) + other.shape).copy())
+            got, want = f(Function(ux), Function(uo)), f(ux, uo)
+    except Exception as ex:
+        return 'tracer-cmp-exception-%s-%s: %s' % (case['cmp'], kind, type(ex).__name__ + ':' + str(ex)[:60])
+    finally:
+        cg.trace_off()
+    if np.shape(got) != np.shape(want) or not np.array_equal(np.asarray(got), np.asarray(want)):
+        return 'tracer-cmp-%s-%s: the comparison on the traced operand gives %s, on the unwrapped values %s' % (
+            case['cmp'], kind, np.asarray(got).tolist(), np.asarray(want).tolist())
+    return None
+
+
 def replay_case(ctx, case):
+    if case.get('op') == 'tracer-cmp':
+        return cmp_fails(case)
     if case.get('late'):
         return late_check(case)
     if case.get('op') == 'kwargs':
@@ -384,6 +431,13 @@ def run(ctx):
                 ctx.report(case, 'failure', f)
             else:
                 ctx.count('structure-compared')
+    for i in range(120 if ctx.tier == 'quick' else 1200):
+        case = cmp_case(rng)
+        ctx.evaluations += 1
+        ctx.count('tracer-cmp=%s-%s' % (case['cmp'], case['kind']))
+        f = cmp_fails(case)
+        if f:
+            ctx.report(case, 'failure', f)
     for i in range(40 if ctx.tier == 'quick' else 400):
         case = kwargs_check(rng)
         ctx.evaluations += 1
